@@ -419,6 +419,7 @@ func z8Scenarios(thorough bool) []z8Scenario {
 		{Kind: "put", Blob: "A", Src: z8Source{Kind: "short", K: 2, Chunk: 2}},
 		{Kind: "import", Blob: "A", Src: good},
 		{Kind: "put", Blob: "M", Src: z8Source{Kind: "good", Chunk: 5}},
+		{Kind: "put", Blob: "M", Src: z8Source{Kind: "short", K: 3, Chunk: 5}}, // a failed store of the manifest blob
 		{Kind: "link", Name: z8Name1, Blob: "M"},
 		{Kind: "link", Name: z8Name2, Blob: "M"},
 		{Kind: "unlink", Name: z8Name1},
@@ -699,6 +700,24 @@ func z8Sources(sub *evid.Run, shard int, thorough bool) {
 				for bad := 0; bad < stop; bad++ {
 					for _, s := range []z8Source{{Kind: "flip", K: 0, Chunk: 2}, {Kind: "short", K: 1, Chunk: 2}, {Kind: "error", K: 1, Chunk: 2}} {
 						run(z8SrcCase{Size: size, Declared: size, Chunked: p, BadChunk: bad, Stop: stop, Src: s})
+					}
+				}
+			}
+		}
+	}
+	// a manifest blob just over Resolve's read limit of 1 MiB (a literal in the code, so the real size is used):
+	// the name must resolve to the digest of exactly the bytes linked, or not at all
+	if shard == 0 {
+		sub.Eval()
+		big := bytes.Repeat([]byte("0123456789abcdef"), (1<<20)/16)
+		big = append(big, 'x')
+		gos.RemoveAll(dir)
+		if c, err := Open(dir); err == nil {
+			d := DigestFromBytes(big)
+			if err := c.Put(d, bytes.NewReader(big), int64(len(big))); err == nil {
+				if err := c.Link(z8Name1, d); err == nil {
+					if got, err := c.Resolve(z8Name1); err == nil && got != d {
+						sub.Violation("C08/resolve-digest/large-manifest", fmt.Sprintf("a manifest blob of %d bytes was stored and linked; Resolve returns %v, the linked bytes hash to %v (the digest of the first 1 MiB is %v)", len(big), got, d, DigestFromBytes(big[:1<<20])), nil)
 					}
 				}
 			}
